@@ -272,7 +272,7 @@ E_DoCheckRet(r) ==
 (* the fail file is written *)
 V_Save(file, s, ok) ==
   If(s.id # buf.id, "save_wrong_buffer")
-  \cup If(cfg.nofailfile \/ mon.fromFF \/ cfg.failfile # "", "save_when_disabled")
+  \cup If(cfg.nofailfile \/ mon.fromFF, "save_when_disabled")   \* -rapid.failfile does not disable saving: a failure found by the random search is new
   \cup If(pc # "save", "save_before_capture")
 E_Save(file, s, ok) ==
   /\ mon' = [mon EXCEPT !.saved = IF ok THEN s ELSE @, !.savedFile = IF ok THEN file ELSE @]
@@ -304,7 +304,7 @@ V_Errorf(r) ==
          \cup If(~mon.fromFF /\ (~r.hasseed \/ r.seed # mon.failSeed), "report_seed")
          \cup If(mon.fromFF /\ r.failfile # ff, "report_failfile")
          \cup If(~mon.fromFF /\ r.failfile # mon.savedFile, "report_failfile")
-         \cup If(~mon.fromFF /\ ~cfg.nofailfile /\ cfg.failfile = "" /\ mon.savedFile = "", "failure_not_saved")
+         \cup If(~mon.fromFF /\ ~cfg.nofailfile /\ mon.savedFile = "", "failure_not_saved")
     [] OTHER -> {}
 E_Errorf(r) ==
   /\ rep' = IF r.kind \in {"onlygen", "failed", "panic", "flaky"} THEN r ELSE rep
